@@ -138,8 +138,8 @@ def run(ctx):
         ctx.check(ld.only_through(i, g_dec), R4, 'load:%s:after-decrypt' % kind, 'reachable without a successful decrypt', ld.loc(i))
         ctx.check(ld.only_through(i, g_exp), R4, 'load:%s:after-expiry-test' % kind, 'reachable without the deadline >= time() test', ld.loc(i))
     # failures after a non-empty cookie clear the cookie
-    g_empty = q.call_gate(ld, lambda i: q.short_of(ld.callee(i)) == 'empty', True)
-    clear_blocks = set(ld.point_of(i)[0] for i in ld.calls() if q.short_of(ld.callee(i)) == 'clear_session_cookie')
+    g_empty = q.empty_gate(ld)
+    clear_blocks = set(ld.point_of(i)[0] for i in q.deep_calls(ld, lambda f, i: q.short_of(f.callee(i)) == 'clear_session_cookie'))
     ctx.require(clear_blocks, 'C05.R4: load never calls clear_session_cookie')
     for n, r in enumerate(q.false_returns(ld)):
         reach = ld.reachable_blocks(cut_edges=g_empty, cut_blocks=clear_blocks)
